@@ -104,8 +104,13 @@ class Run(object):
       if ex.deadline and time.time() > ex.deadline:
         ex.stats["truncated"] = True
         raise PathAbort("time budget of the exploration exhausted inside a path", "budget")
-      rt = self._check(cond)
-      rf = self._check(z3.Not(cond))
+      if ex.blind:
+        # no feasibility queries while exploring (bit-precise floating point: every query costs seconds);
+        # the caller decides the feasibility of the paths it is interested in afterwards
+        rt = rf = z3.sat
+      else:
+        rt = self._check(cond)
+        rf = self._check(z3.Not(cond))
       can_t = rt != z3.unsat
       can_f = rf != z3.unsat
       if rt == z3.unknown or rf == z3.unknown:
@@ -160,8 +165,9 @@ class PathResult(object):
 
 
 class Explorer(object):
-  def __init__(self, max_paths=20000, query_timeout_ms=10000, first_choice=True, max_seconds=None):
+  def __init__(self, max_paths=20000, query_timeout_ms=10000, first_choice=True, max_seconds=None, blind=False):
     self.max_paths = max_paths
+    self.blind = blind
     self.deadline = (time.time() + max_seconds) if max_seconds else None
     self.query_timeout_ms = query_timeout_ms
     self.first_choice = first_choice
